@@ -1,4 +1,5 @@
 import ShredModel.Lemmas.Scenario
+import ShredModel.Lemmas.NestedTop
 /-!
 # C02 — dependencies
 
@@ -23,4 +24,24 @@ theorem C02_dependencies (l : List (Ev SysTag)) (hl : Traces sc.plan l)
 end Scenario
 end Shred
 
+namespace Shred
+/-- **C02 / C03 with batches, at any nesting depth**: layout order (which `C02_dependencies` and
+`C03_barriers` establish for dependencies and barriers) is execution order for everything under
+the two systems. -/
+theorem C02_order_nested {D : SysTag → Decl} (L : Level D) (par : Bool) (pfx : Inst) (l : List (Ev Inst))
+    (hl : Traces (L.task par pfx) l) {A B : SysTag} (hAB : TOrdered L.stages A B) {x y : Inst}
+    (hx : x ∈ (leafOf L.bs pfx A).sys) (hy : y ∈ (leafOf L.bs pfx B).sys)
+    (l1 l2 : List (Ev Inst)) (hsplit : l = l1 ++ Ev.F y :: l2) : Ev.D x ∈ l1 :=
+  traces_before hl (L.nodup par pfx) x y (before_nested_of_ordered par L.tl L.bs pfx hAB hx hy) l1 l2 hsplit
+
+/-- dependencies and barriers of a registration sequence order the tagged table the driver uses -/
+theorem C02_deps_order_tagged (sc : Scenario) (τ : Nat → SysTag) (A B : Nat) (hB : B < sc.final.n)
+    (hA : A ∈ sc.Dep B) : TOrdered (sc.taggedStages τ) (τ A) (τ B) := by
+  obtain ⟨z, hz⟩ := sc.good
+  rw [sc.taggedStages_eq]
+  exact tOrdered_of_ordered hz τ (hz.deps B A hB hA)
+end Shred
+
 #print axioms Shred.Scenario.C02_dependencies
+#print axioms Shred.C02_order_nested
+#print axioms Shred.C02_deps_order_tagged
